@@ -438,3 +438,12 @@ SPECS["C04"]["level_text"] += (". Added: DECLARATION-TREE obligation for the liv
     "followed by loop_cnt = len(loops) 24-byte loops; data body = the generator's blocks. With construct's trusted semantics of Prefixed / GreedyRange this gives "
     "RIFF size = length - 8, chunk sizes adding up, smpl size = 36 + 24*loops")
 SPECS["C04"]["trusted_base"] = SPECS["C04"].get("trusted_base", []) + ["construct 2.10: Prefixed(lengthfield, subcon).build writes len(built subcon) then its bytes; GreedyRange builds every element in order; Lazy/GreedyBytes write the generator's blocks unchanged"]
+SPECS["C09"]["contracts"] += ["smpl_extract.actions:determine_image_type[opened-file]", "smpl_extract.actions:attempt_parse_cue_sheet"]
+SPECS["C17"]["contracts"] += ["smpl_extract.actions:attempt_parse_cue_sheet"]
+SPECS["C09"]["level_text"] += (". Added: determine_image_type on an opened file removes the container first (MDF before MDX) and decides Roland/AKAI on the unwrapped stream only; "
+    "attempt_parse_cue_sheet opens a sheet with any non-audio track (mode compared without letter case) as a sampler image over its bin file and a sheet with only audio tracks as CDDA, "
+    "and raises BadCueSheet only when the text is no cue sheet; MdxStream's window is [64, stored eof) of the file; the view constructors establish sector size and length")
+SPECS["C17"]["level_text"] += (". Added: per-iteration step clauses on the track parser (an entry that does not begin with INDEX / TITLE - e.g. a REM line that mentions one - changes neither "
+    "the indices nor the title); the cue-or-sampler decision of attempt_parse_cue_sheet")
+SPECS["C20"]["level_text"] += (". Added: layout obligations for the live ProgramHeaderConstruct (every field of the 72-byte header), the static part of KeygroupConstruct (34 bytes) and "
+    "VelocityZoneConstruct (24 bytes) against the field tables of the independent program writer (offset, width, signedness of every printed parameter)")
